@@ -593,6 +593,29 @@ EDGE_TABLE = {  # the lines that carry the sides, in barycentric coordinates (X 
 }
 
 
+def r9_normal_inputs_keep_their_variables(repo: Repo, rep):
+    R = rep.rule("R-C06-9", "the common input preparation of normal() hands the points on with ALL their variables (the shape parameters may travel inside the points): "
+                 "it wraps a raw tensor into Points(points, self.space) and otherwise returns the points it was given", floor=1,
+                 why="normal() evaluates centre / radius / corners on points.join(params): points sampled on boundary(t) x Interval(t) carry t themselves - cut down to the domain's own columns, the shape functions cannot be evaluated")
+    dom = repo.cls(f"{DOM}.domain.Domain")
+    fi = repo.resolve_method(repo.cls(f"{DOM}.domain.BoundaryDomain"), "_transform_input_for_normals") or dom.methods.get("_transform_input_for_normals")
+    if fi is None:
+        raise AnalysisError("_transform_input_for_normals vanished")
+    rep.saw(fi)
+    pname = fi.params[1]
+    for p in paths(fi.node):
+        if p.ret is RAISE:
+            continue
+        r = p.ret
+        first = r.elts[0] if isinstance(r, ast.Tuple) and r.elts else r
+        # every value the points name took on this path
+        vals = [e.value for e in p.events if e.kind == "assign" and e.target is not None and dump(e.target) == pname and e.value is not None]
+        vals.append(first)
+        bad = [v for v in vals if any(isinstance(x, ast.Subscript) and isinstance(x.value, ast.Name) and x.value.id == pname for x in ast.walk(v))]
+        shown = "; ".join(dump(v)[:70] for v in bad)
+        rep.check(R, not bad, fi.site(p.ret_node), fi.fq, "no selection of columns / variables from the points", shown, shown)
+
+
 def r7b_edge_table(repo: Repo, rep):
     R = rep.rule("R-C06-7b", "boundary membership of parallelogram / triangle tests closeness to exactly the lines that carry its sides "
                  "(parallelogram: X = 0, X = 1, Y = 0, Y = 1; triangle: X = 0, Y = 0, X + Y = 1)", floor=2,
@@ -618,10 +641,12 @@ def r7b_edge_table(repo: Repo, rep):
 
 
 def run(repo: Repo, rep):
-    from .c05 import r8_side_tolerance
+    from .c05 import r8_side_tolerance, r14_scale_of_tolerances  # operand selection of Boolean normals is boundary membership: it must accept the sampler's float32 points of shapes of every size
     records = r8_side_tolerance(repo, rep)
+    r14_scale_of_tolerances(repo, rep)
     r7_edge_agreement(repo, rep)
     r7b_edge_table(repo, rep)
+    r9_normal_inputs_keep_their_variables(repo, rep)
     r6_edge_tests(repo, rep, records)
     r1_boolean(repo, rep)
     r2_r3_edges(repo, rep)
